@@ -173,7 +173,9 @@ def spec_of(draw, kind, small=True):
     if kind == "tm":
         return draw(GT.tm_specs(max_states=4, sigma=["a", "b"], halting_initial=False))
     if kind == "cfg":
-        for _ in range(1):
+        if draw(st.integers(0, 3)) == 0:
+            s = draw(GC.pseudo_cnf_specs(max_vars=3))
+        else:
             s = draw(GC.cfg_specs(max_vars=3, terms=("a", "b"), simple=True, allow_norule=False, max_len=3))
         s["T"] = sorted({x for _, rhs in s["R"] for x in rhs if x not in s["V"]}) or ["a"]
         return s
